@@ -347,6 +347,11 @@ pub fn mutate(obs: &mut Obs, len: usize) {
                 edges.sort();
                 edges.dedup();
             }
+            // 7: the final linking loops skip the last instruction: it no longer reaches the block end
+            7 => {
+                let end = len as u64 + 1;
+                edges.retain(|e| !(e.1 == end && e.0 == len as u64 && len > 0));
+            }
             _ => {}
         }
     }
